@@ -36,7 +36,7 @@ CHECKS = {
    note="Oracle independent of resolvo."),
  "C08": dict(engine=E1, cat="model_checking", ref="DESIGN.md §3 C08",
    technique="exhaustive universe enumeration; brute-force existence of a model containing all first-ranked direct candidates",
-   text="For every case whose root requirements are single version sets: if brute force finds a valid selection containing the first-ranked candidate of every root requirement, the solution must contain them all. Families include F1' (4x2) and the 3-version F8 family so that learning and backjumps past the root decisions occur.",
+   text="For every case whose root requirements are single version sets: if brute force finds a valid selection containing the first-ranked candidate of every root requirement, the solution must contain them all. Families include F1' (4x2) and the interference families F8/F8b so that learning and backjumps past the root decisions occur; F8 (hints as-is/All) and F8b (every subset of hinted packages) are also run under completion orders of the controlled executor.",
    note=""),
  "C09": dict(engine=E1, cat="model_checking", ref="DESIGN.md §3 C09",
    technique="exhaustive universe enumeration; provider call log walked against causality rules",
@@ -64,23 +64,23 @@ CHECKS = {
    note="Inclusion rule evaluated for the first soft solvable of the list only."),
  "C15": dict(engine=E1, cat="model_checking", ref="DESIGN.md §3 C15",
    technique="enumeration of candidate counts n<=N, all pairs, all discovery shapes; at-most-one encoding certified from the clause dump",
-   text="One package with n candidates for every n <= 17 (quick) / 130 (thorough); every discovery shape of the menu (all at once, every arrival permutation for n <= 5, identity/reverse/interleaved/rotations above, blocks, two-phase at every split, discovery under decisions that are later reverted); every pair must be Unsolvable, every single candidate selectable; the dumped forbid clauses must be exactly an at-most-one.",
+   text="One package with n candidates for every n <= 17 (quick) / 130 (thorough); every discovery shape of the menu (all at once, every arrival permutation for n <= 5, identity/reverse/interleaved/rotations above, blocks, two-phase at the split points, discovery under decisions that are later reverted, candidates that are false when a lazily fetched requirer reveals them); every pair must be Unsolvable, every single candidate selectable; the dumped forbid clauses must be exactly an at-most-one.",
    note="Above n = 40 only pairs touching a power-of-two neighbourhood or the ends are enumerated (counted)."),
  "C16": dict(engine="E4 operation-sequence explorer", cat="model_checking", ref="DESIGN.md §3 C16",
    technique="universe enumeration x capture seeds x serde round trip x add_package_requirement histories, compared with brute force on the live universe",
-   text="For every universe (dense and gapped id layouts) every capture seed of the menu x {direct, serde_json round trip} x every history of 0..2 add_package_requirement calls: captured version sets re-read after every addition, added ids fresh, the case's problem / highest captured version set / every added version set solved through the snapshot and compared with brute force on the live universe incl. preference order on conflict-free problems.",
+   text="For every universe (dense and gapped id layouts) every capture seed of the menu x {direct, serde_json round trip} x every history of 0..2 add_package_requirement calls (with with_timeout at every position of the history): captured version sets re-read after every addition, added ids fresh, the case's problem / highest captured version set / every added version set solved through the snapshot and compared with brute force on the live universe incl. preference order on conflict-free problems.",
    note="Problems with union root requirements are not expressible through from_provider's seeds."),
  "C18": dict(engine="E4 operation-sequence explorer", cat="model_checking", ref="DESIGN.md §3 C18",
    technique="BFS over Pool interning histories from pre-filled start states with canonical-state dedup vs reference maps",
-   text="Breadth-first search over intern_* histories (depth 4 quick / 6 thorough) from pools pre-filled with 0/126/127/128/255/256 items per arena; after every operation every id ever returned is re-resolved and must yield the same content at the same address; ids dense and stable.",
+   text="Breadth-first search over intern_* histories (depth 4 quick / 6 thorough) from pools pre-filled with 0/126/127/128/255/256 items per arena; after every operation every id ever returned is re-resolved and must yield the same content at the same address; ids dense and stable. Because the canonical form is derived from the reference model, every sequence up to depth 4 (quick) / 5 (thorough) from prefill 0 and 127 is additionally enumerated without any state merging. Thorough adds a supplementary miri replay of a few histories (not deciding).",
    note="Address stability observed through safe code (re-resolution)."),
  "C19": dict(engine="E4 operation-sequence explorer", cat="model_checking", ref="DESIGN.md §3 C19",
    technique="BFS over Mapping insert/unset histories with canonical-state dedup vs BTreeMap, incl. serde round trip",
-   text="Breadth-first search over all insert/unset sequences (depth 5 quick / 8 thorough) on ids {0,1,2,5,127,128,129,300} from default()/with_capacity(1)/with_capacity(200); get, len, is_empty, iter and a serde_json round trip compared with a BTreeMap after every sequence.",
+   text="Breadth-first search over all insert/unset sequences (depth 5 quick / 8 thorough) on ids {0,1,2,5,127,128,129,300} from default()/with_capacity(1)/with_capacity(200); get, len, is_empty, iter and a serde_json round trip compared with a BTreeMap after every sequence; every sequence up to depth 4/5 additionally without state merging; thorough adds a supplementary miri replay (not deciding).",
    note=""),
  "C20": dict(engine="E4 operation-sequence explorer", cat="model_checking", ref="DESIGN.md §3 C20",
    technique="all SolverCache call sequences of depth d per universe vs reference filter/sort/availability model; re-entrant sort in full solves",
-   text="For every universe of F3 (<= 1/2 decorations) and a slice of F4: every sequence (length 3 quick / 4 thorough) of get_or_cache_* / are_dependencies_available_for calls on a bare SolverCache compared with the reference (partition, rank order with favored rotation, same address and no provider call on repeats, availability rule); plus full solves whose sort_candidates calls back into the cache.",
+   text="For every universe of F3 (<= 1/2 decorations) and a slice of F4: every sequence (length 3 quick / 4 thorough) of get_or_cache_* / are_dependencies_available_for calls on a bare SolverCache compared with the reference (partition, rank order with favored rotation, same address and no provider call on repeats, availability rule); plus full solves whose sort_candidates calls back into the cache, every universe again with all packages hinted, the sorted candidates of every union under every completion order of the provider's answers (controlled executor on a bare cache), and one-package universes with 5/21/33/64 candidates x favored position x 3 preference orders.",
    note=""),
 }
 
@@ -90,7 +90,7 @@ CHECKS["C06"] = dict(engine=E1, cat="exploration", ref="DESIGN.md §3 C06, §10"
    note="std's SipHash keys in conflict.rs vary per instance but are not controlled; a seed-control probe must realise >= 2 iteration orders or the run exits 2.")
 CHECKS["C17"] = dict(engine="E5 C++/Rust differential driver", cat="model_checking", ref="DESIGN.md §3 C17, §10",
    technique="universe enumeration pushed through the C++ bridge and the Rust API in one ASan/UBSan process with a layout-checking allocator; exhaustive container-operation sequences vs std::vector",
-   text="Every universe of F3 (<= 1/2 decorations), a slice of F1 and of F5 that the C++ interface can express is solved through resolvo::solve with a table-driven C++ DependencyProvider (5 ways of building the returned vectors, with and without a pre-filled result) and through the Rust API: identical solution vector / error text, no Rust-side block survives a solve, every block is freed with the layout it was allocated with, ASan/UBSan/LSan silent; every sequence (depth 4/5) of container operations on Vector<SolvableId>/Vector<String> with 2 handles vs std::vector, String operations vs std::string, struct layouts compared; a reduced pass runs under valgrind.",
+   text="Every universe of F3 (<= 1/2 decorations), a slice of F1 and of F5 that the C++ interface can express is solved through resolvo::solve with a table-driven C++ DependencyProvider (6 ways of building the returned vectors incl. a reused scratch vector with capacity > size, with and without a pre-filled result) and through the Rust API: identical solution vector / error text, no Rust-side block survives a solve, every block is freed with the layout it was allocated with, ASan/UBSan/LSan silent; every sequence (depth 4/5) of container operations on Vector<SolvableId>/Vector<String> with 2 handles vs std::vector, String operations vs std::string, struct layouts compared; a reduced pass runs under valgrind.",
    note="Unknown dependencies and missing packages cannot be expressed through the C++ interface; the Rust side of Vector is only reachable through the bridge.")
 
 NOT_APPLICABLE = {
